@@ -205,6 +205,48 @@ Section Laws.
       inversion Heq; subst. now exists ps, t.
   Qed.
 
+  (** whatever the history, a cached statement is the parse of the bound text of SOME earlier call with
+      that text (here: of the populating call); together with [hit_ignores_params] this says exactly
+      what a hit executes instead of the current call *)
+  Lemma execute_from_calls : forall calls d c sql ps d' c' o,
+    In (sql, ps) calls -> from_calls calls (cache c) ->
+    execute d c sql ps = (d', c', o) -> from_calls calls (cache c').
+  Proof.
+    intros calls d c sql ps d' c' o Hin Hg H. unfold Cursor.execute in H.
+    destruct (lru_get sql (cache c)) as [[st cache']|] eqn:Eg.
+    - unfold Cursor.run_stmt in H. cbn [last cache] in H.
+      destruct (exec_stmt d (last c) st) as [[[d1 l1] o1] clr]. inversion H; subst. cbn [cache].
+      destruct clr; [intros k s []|]. intros k s Hi. apply Hg. eapply lru_get_In; eassumption.
+    - destruct (process sql ps) as [t|] eqn:Hpr; [|inversion H; now subst].
+      destruct (parse t) as [st|] eqn:Hpa; [|inversion H; now subst].
+      unfold Cursor.run_stmt in H. cbn [last cache] in H.
+      destruct (exec_stmt d (last c) st) as [[[d1 l1] o1] clr]. inversion H; subst. cbn [cache].
+      destruct clr; [intros k s []|].
+      intros k s Hi. apply lru_put_In in Hi. destruct Hi as [Heq|Hi]; [|now apply Hg].
+      inversion Heq; subst. now exists ps, t.
+  Qed.
+
+  Lemma run_cursor_from_calls : forall calls suffix d c,
+    incl suffix calls -> from_calls calls (cache c) ->
+    let '(_, _, c') := run_cursor d c suffix in from_calls calls (cache c').
+  Proof.
+    intros calls. induction suffix as [|[sql ps] rest IH]; intros d c Hi Hg; cbn [Cursor.run_cursor]; [exact Hg|].
+    destruct (execute d c sql ps) as [[d1 c1] o1] eqn:E.
+    assert (Hin : In (sql, ps) calls) by (apply Hi; now left).
+    pose proof (execute_from_calls calls _ _ _ _ _ _ _ Hin Hg E) as Hg1.
+    assert (Hi' : incl rest calls) by (intros x Hx; apply Hi; now right).
+    specialize (IH d1 c1 Hi' Hg1). now destruct (run_cursor d1 c1 rest) as [[os d2] c2].
+  Qed.
+
+  Theorem cache_entries_from_history : forall calls d,
+    let '(_, _, c') := run_cursor d new_cursor calls in
+    forall k s, In (k, s) (cache c') ->
+      exists ps t, In (k, ps) calls /\ process k ps = Some t /\ parse t = Some s.
+  Proof.
+    intros calls d. pose proof (run_cursor_from_calls calls calls d new_cursor (incl_refl _)) as H.
+    destruct (run_cursor d new_cursor calls) as [[os d'] c']. apply H. intros k s [].
+  Qed.
+
   Lemma cursor_plain_functional_go : forall calls, functional calls ->
     forall suffix d c, incl suffix calls -> from_calls calls (cache c) ->
     let '(os, d', c') := run_cursor d c suffix in
